@@ -131,6 +131,13 @@ func injectSlashKeys(v *model.Value) bool {
 					done = true
 				}
 			}
+			// and an entry whose key starts like a patch operator without being one
+			if !strings.HasPrefix(k, "$") {
+				if _, taken := v.Entries["$"+k]; !taken {
+					v.Entries["$"+k] = model.Clone(e)
+					done = true
+				}
+			}
 		}
 	case model.KArray:
 		for _, e := range v.Elems {
@@ -175,6 +182,9 @@ func specText(spec [][]string) []string {
 
 func wildcardify(p []string, rng *rand.Rand) []string {
 	c := append([]string{}, p...)
+	if c[len(c)-1] == "*" {
+		return c // "all entries of this map": generalising an earlier segment could make the last "*" stand for array items
+	}
 	if len(c) > 1 && rng.Intn(3) == 0 {
 		c[rng.Intn(len(c)-1)] = "*" // never the last segment: a terminal wildcard on array items is left unspecified
 	}
